@@ -12,6 +12,10 @@ FMT_WIDTH = {'B': 1, 'H': 2, 'I': 4, 'Q': 8}
 def _const(e):
     if isinstance(e, ast.Constant) and isinstance(e.value, int) and not isinstance(e.value, bool):
         return e.value
+    if isinstance(e, ast.BinOp) and isinstance(e.op, ast.Pow):
+        a, b = _const(e.left), _const(e.right)
+        if a is not None and b is not None and 0 <= b <= 16 and abs(a) <= 65536:
+            return a ** b
     if isinstance(e, ast.BinOp) and isinstance(e.op, (ast.Add, ast.Sub, ast.Mult, ast.LShift)):
         # constant arithmetic (`1 + 2`, what a table-driven `1 + width` is once the table is read back)
         a, b = _const(e.left), _const(e.right)
